@@ -122,7 +122,7 @@ func Plan(tier string) *harness.Plan {
 	if tier == "thorough" {
 		// plus every 4-node pattern on ASCII haystacks of <= 3 symbols and the two-edit seed neighbourhoods on their
 		// token words (a superset of the quick space)
-		t.PN, t.HugePN, t.LHuge, t.SK, t.Budget = 4, 3, 3, 2, 25*time.Minute
+		t.PN, t.HugePN, t.LHuge, t.SK, t.LateSKDelta, t.Budget = 4, 3, 3, 2, 1, 25*time.Minute
 	}
 	sp := bx.NewSpace(t)
 	run := func(w *harness.W, u int) {
